@@ -3,6 +3,7 @@
 import json, subprocess
 PBT="property-based testing (proptest generators + own runner, model-based oracle, shrinking to a replay file)"
 C={
+ "C01":("exploration","hostile reply scripts (recorded valid exchanges mutated at byte / field / datagram level, magic-prefixed random bytes, pure random) are served to every public query entry point (protocol functions, generic dispatch for every table game, every game module) with retries 0-2; any panic (overflow checks on), runaway transport use or non-return is a violation; sampled, never exhaustive","trusts the scripted transport's fidelity to loopback sockets; eco/HTTP is outside the scripted enumeration","property-based testing / structure-aware mutation fuzzing with a totality oracle (panic hook, operation budget, watchdog)","§2 C01"),
  "C02":("exploration","random A2S server states (all engines, all 32 EDF masks enumerated, obsolete GoldSrc layout, The Ship, 0-255 players, up to 65535 rules) under random transports (challenge rounds, Source/GoldSrc split, bzip2-compressed split) are served by a reactive reference server; valve::query and ten per-game wrappers are compared field for field with the expected response","trusts the reference encoder written from the Valve Server Queries document; points taken from the implementation are listed as assumptions in the evidence; python3 bz2 is the independent compressor",PBT,"§2 C02"),
  "C03":("exploration","random Java/Bedrock/legacy statuses served by a reference server that speaks a subset of the five variants; specific queries compared field for field, auto-detect checked for result, label and the order of connections/requests on the wire; all 32 subsets enumerated in every run","trusts the reference encoders (Server List Ping, RakNet unconnected pong, legacy kick packets); Java description compared as parsed JSON",PBT+" + exhaustive enumeration of the 32 variant subsets","§2 C03"),
  "C04":("exploration","random GameSpy 1/2/3 server states are encoded by independent reference encoders (multi-part GS1, GS2 tables, GS3 handshake + splitnum packets with fields continued across packets) and query / query_vars results are compared with the expected response and the exact pair set","no formal specification exists; encoders follow the node-gamedig reading (assumptions listed in the evidence)",PBT,"§2 C04"),
